@@ -39,7 +39,7 @@ class FnSpec:
     def __init__(self, qual, params=None, returns=None, requires=(), ensures=(), raises=None,
                  modifies=(), loops=None, ghost_entry=(), ghost_exit=(), inline=False,
                  pure=False, lets=None, on_raise=(), properties=(), trusted=False, note=None,
-                 locals=None, decreases=None, opaque_result=False):
+                 locals=None, decreases=None, opaque_result=False, call_inline=False):
         self.qual = qual
         self.params = {k: ty.parse_type(v) for k, v in (params or {}).items()}
         self.returns = ty.parse_type(returns) if returns else None
@@ -54,6 +54,7 @@ class FnSpec:
         self.ghost_entry = [parse_stmts(s) for s in ghost_entry]
         self.ghost_exit = [parse_stmts(s) for s in ghost_exit]
         self.inline = inline
+        self.call_inline = call_inline     # verified against its contract, but inlined at call sites (dimension-generic helpers)
         self.pure = pure
         self.lets = lets or {}
         self.on_raise = [parse_expr(s) for s in on_raise]
